@@ -104,6 +104,25 @@ fn dec_whole(cx: &mut Ctx) {
         // structured sweeps: every pointer of the longer forms
         match *name {
             "ISO-2022-JP" => {
+                // the escape grammar in depth: every string of length 5..7 over the escape bytes (escapes after escapes, lone ESC
+                // before an escape, the output flag), and of length 5 with a letter and a two-byte-set byte added
+                for len in 5..=7usize {
+                    let mut v: Vec<Vec<u8>> = Vec::new();
+                    for_all_strings(&[0x1B, 0x28, 0x24, 0x42, 0x4A], len, &mut |s| v.push(s.to_vec()));
+                    for (i, s) in v.iter().enumerate() {
+                        if len == 7 && !cx.thorough && (i + cx.seed as usize) % 2 != 0 {
+                            continue;
+                        }
+                        whole(cx, &hc(e, Mode::Off, if i % 2 == 0 { Sink::Utf16 } else { Sink::Utf8 }, i % 5 == 0), s, false);
+                    }
+                }
+                {
+                    let mut v: Vec<Vec<u8>> = Vec::new();
+                    for_all_strings(&[0x1B, 0x28, 0x24, 0x42, 0x4A, 0x41, 0x21], 5, &mut |s| v.push(s.to_vec()));
+                    for (i, s) in v.iter().enumerate() {
+                        whole(cx, &hc(e, Mode::Off, if i % 2 == 0 { Sink::Utf8 } else { Sink::Utf16 }, i % 3 == 0), s, false);
+                    }
+                }
                 // every byte after each one-byte-set escape, every pair after the two-byte-set escapes
                 for esc in [[0x1Bu8, 0x28, 0x42], [0x1B, 0x28, 0x4A], [0x1B, 0x28, 0x49]] {
                     for b in 0..=255u8 {
